@@ -223,6 +223,9 @@ func (lam *Lambda) BoundCall(s *Scope, depth int) (result Object) {
 			}
 			break
 		}
+		if _, ok := result.(*GoTo); ok {
+			break
+		}
 	}
 	return
 }
